@@ -396,6 +396,11 @@ impl<T: Copy> Buffer<T> {
             n,
             s.used
         );
+        if n == 0 {
+            // Nothing consumed, so no tags to drop. (Without this, rpos ==
+            // newpos below is taken to mean "the whole buffer".)
+            return;
+        }
         let newpos = (s.rpos + n) % s.capacity();
         use std::ops::Bound::{Excluded, Included};
 
